@@ -381,7 +381,8 @@ def handle (st : ReSt) (op : String) (args : List String) : ReSt × Option Reply
       let a ← st.term a
       let m := pRes pBool (isEmptyRe ord FUEL a)
       -- spec: a witness among the test strings refutes emptiness
-      some { model := m, specCheck := some fun impl =>
+      -- C05 `is_empty_iff` proves the model's answer is the specification's (when the fuel sufficed)
+      some { model := m, spec := (if m == "0" || m == "1" then some m else none), specCheck := some fun impl =>
         match impl, witness st a with
         | "1", some w => some s!"claims-empty-but-contains:{pNats w}"
         | _, _ => none }
@@ -405,13 +406,16 @@ def handle (st : ReSt) (op : String) (args : List String) : ReSt × Option Reply
       let a ← st.term a; let c ← rNat c
       let m := pRes pBool (startChar ord FUEL a c)
       let ex := st.strings.find? (fun w => refMatch a (c :: w))
-      some { model := m, specCheck := some fun impl =>
+      -- C18 `start_char_iff` proves the model's answer is the specification's (when the fuel sufficed)
+      some { model := m, spec := (if m == "0" || m == "1" then some m else none), specCheck := some fun impl =>
         match impl, ex with
         | "0", some w => some s!"claims-no-string-starts-with-{c}-but:{pNats (c :: w)}"
         | _, _ => none }
   | "start_class", [a, cid] => pure' do
       let a ← st.term a; let cid ← rCid cid
-      ok (pRes (fun r => match r with | .ok b => pBool b | .error e => pErr e) (startClass ord FUEL a cid))
+      let m := pRes (fun r => match r with | .ok b => pBool b | .error e => pErr e) (startClass ord FUEL a cid)
+      -- C18 `start_class_spec`
+      some { model := m, spec := (if m == "OUTOFFUEL" then none else some m) }
   -- ---------- replace
   | "replace_re", [s, a, t] => pure' do
       let s ← rNats s; let a ← st.term a; let t ← rNats t
@@ -425,6 +429,11 @@ def handle (st : ReSt) (op : String) (args : List String) : ReSt × Option Reply
         (pOpt (fun (i, j) => s!"{i}:{j}")
           (if allow && refMatch a [] then some (k, k)
            else if k > s.length then none else specFirstMatch a s k true))
+  -- ---------- history independence (C07): the same program on a manager with a different history
+  -- denotes the same language (`language_history_independent`), so the second signature must equal the first
+  | "twin", [_, sigA] => (st, okProved sigA)
+  -- every term handed out is the manager's own node; built-in constants are shared (`make_stable`)
+  | "ptr_in_table", [_] => (st, okProved "1")
   -- ---------- compilation to a DFA (C02, C19)
   | "compile", [a] => pure' do
       let a ← st.term a
@@ -448,6 +457,16 @@ def handle (st : ReSt) (op : String) (args : List String) : ReSt × Option Reply
             else autCheck st a (sDrop impl 5)
           | none => autCheck st a (sDrop impl 5)
         else some "unparsable" }
+  -- C19: number of states = number of distinct derivatives; Some iff that number ≤ n and n ≠ 0
+  -- (`try_compile_iff`, `compile_num_states`: the model's value is the specification's)
+  | "compile_size", [a] => pure' do
+      let a ← st.term a
+      let m := pRes (fun A => toString A.numStates) (compile ord FUEL a)
+      some { model := m, spec := (if m == "OUTOFFUEL" then none else some m) }
+  | "try_compile_size", [a, n] => pure' do
+      let a ← st.term a; let n ← rNat n
+      let m := pRes (pOpt (fun A => toString A.numStates)) (tryCompile ord FUEL a n)
+      some { model := m, spec := (if m == "OUTOFFUEL" then none else some m) }
   | _, _ => (st, none)
 
 end Driver.FamRe
